@@ -21,7 +21,8 @@ ASSUMPTIONS = [
     "least-squares identities: residual = S00 - S^H T^-1 S is invariant under x -> M x",
     "tolerances relative to the output ASD at the same bin",
 ]
-DECIDING_COUNTERS = ["systems", "bins_bounds_checked", "collinear_numeric_cases", "permutation_pairs",
+DECIDING_COUNTERS = ["systems", "bins_bounds_checked", "collinear_numeric_cases",
+                     "inplace_refill_histories", "permutation_pairs",
                      "remix_pairs",
                      "rescale_pairs", "analytic_vs_numeric", "siso_bins", "exact_combination"]
 MIN_NONTRIVIAL = {"quick": 30, "thorough": 600}
@@ -223,6 +224,33 @@ def one_system(rec, seedt):
                     rec.violation(f"siso-closed-form:{name}",
                                   f"{tag}{name}: residual {asd[j]!r} != sqrt(Gyy*(1-coh)) = "
                                   f"{exp[j]!r} at f={ry.f[j]:.5g} (coh={rc.coh[j]:.4f})")
+    # History: the caller's buffers are refilled in place with a different system and analysed
+    # again; the result must be that of the current contents (compared with fresh copies).
+    if form == "float64" and rng.random() < 0.5:
+        in2, y2, _, _ = make_system(rng, q, N, exact, disparity)
+        for dst, src in zip(inputs, in2):
+            dst[:] = src
+        ybuf = np.ascontiguousarray(y)
+        fn = systems.MISO_analytic_optimal_spectral_analysis if (use_analytic and q <= 3) \
+            else systems.MISO_numeric_optimal_spectral_analysis
+        first = api.attempt(rec, lambda: fn(inputs, ybuf, fs, **kw), "first call on the buffers")
+        ybuf[:] = y2
+        again = api.attempt(rec, lambda: fn(inputs, ybuf, fs, **kw), "call after in-place refill")
+        fresh = api.attempt(rec, lambda: fn([v.copy() for v in inputs], ybuf.copy(), fs, **kw),
+                            "call on fresh copies")
+        if again is not None and fresh is not None:
+            rec.count("inplace_refill_histories")
+            ry2 = compute_spectrum(ybuf.copy(), fs, **kw)
+            a2 = np.asarray(ry2.asd)
+            s2 = (np.asarray(ry2.K) > q) & (np.asarray(ry2.L) > kw["order"] + 1) & (a2 > 1e-12 * a2.max())
+            if np.any(s2):
+                d = np.abs(np.asarray(again[1]) - np.asarray(fresh[1]))[s2] / a2[s2]
+                if d.max() > 1e-9:
+                    rec.violation("stale-after-inplace-refill",
+                                  f"{tag}{fn.__name__}: result for buffers refilled in place differs "
+                                  f"from the result for fresh copies of the same samples by "
+                                  f"{d.max():.3e} x asd_y")
+        return
     base = res.get("numeric")
     solver = systems.MISO_numeric_optimal_spectral_analysis
     sname = "numeric"
